@@ -2,6 +2,7 @@ import Proofs.DasStatement
 import Proofs.DasForeign
 import Proofs.DasFlat
 import Proofs.DasTotal
+import Proofs.DasIds
 /-!
   C08 — attributes survive the DAS.  Model: `PydapModel/DasText.lean` (follows parsers/das.py and
   responses/das.py *after* the two fixes: `float()` under Float32/Float64; size-0 values skipped everywhere).
@@ -93,6 +94,17 @@ theorem C08_placement_nested (attrs nested e : Dict) (p : List Text) (k : Text)
     (h1 : reduceGet (.dict attrs) p.dropLast = .ok (.dict nested))
     (h2 : dget nested k = some (.dict e)) :
     attachStep attrs p [] = .ok (setNested attrs p.dropLast (derase nested k), dupdate [] e) := by
+  simp [attachStep, nestedStep, h0, hk, h1, h2]
+
+/-- **placement, flat AND nested container for the same variable** (a text mixing both styles for one subtree, e.g.
+    `s { a { … } }` together with `s.a { … }`): both containers are popped and the variable receives the flat one
+    first, then the nested one on top (`dict.update` twice: on a common name the nested container wins). -/
+theorem C08_placement_both (attrs nested e1 e2 : Dict) (p : List Text) (k : Text) (init : Dict)
+    (h0 : dget attrs (dotted p) = some (.dict e1)) (hk : p.getLast? = some k)
+    (h1 : reduceGet (.dict (derase attrs (dotted p))) p.dropLast = .ok (.dict nested))
+    (h2 : dget nested k = some (.dict e2)) :
+    attachStep attrs p init
+      = .ok (setNested (derase attrs (dotted p)) p.dropLast (derase nested k), dupdate (dupdate init e1) e2) := by
   simp [attachStep, nestedStep, h0, hk, h1, h2]
 
 /-- **placement, keep-around rule (repaired code).** An entry under the variable's name that is NOT a container — a
@@ -281,6 +293,22 @@ theorem C08_history_roundtrip (dss : List Dataset) (h : ∀ ds ∈ dss, DsOk ds 
   rw [parse_print ds hok, denote_ds ds hg.1 hg.2.1 hg.2.2]
   simp only [attach_tree ds hg.1, expected]
 
+/-- **ids are pairwise distinct** — the first guard of the flat-style theorems is not an assumption about the walk: it
+    follows from what Python's containers enforce (sibling names distinct) plus dot-free names (`".".join` is injective
+    on such paths, `dotted_inj`; the walk visits every path once, `walkVars_nodup`). -/
+theorem C08_flat_ids_distinct (cs : List Var) (h : VarsNames cs) (hnd : (cs.map Var.name).Nodup) :
+    ((visitIds cs).map dotted).Nodup :=
+  ids_nodup cs h hnd
+
+/-- **flat style, whole tree, from names**: `C08_foreign_flat` with the id guard discharged. -/
+theorem C08_foreign_flat_names (name : Text) (cs : List Var) (A : Dict)
+    (hnames : VarsNames cs) (hnd : (cs.map Var.name).Nodup)
+    (h1 : ∀ p ∈ visitIds cs, NoneOrDict (A.filter notGlobal) (dotted p) fun S => (keys S).Nodup)
+    (h2 : ∀ q0 r1 rs, (q0 :: r1 :: rs) ∈ visitIds cs → NoneOrDict (A.filter notGlobal) q0 fun S => r1 ∉ keys S)
+    (hself : name ∉ keys (dropKeys (A.filter notGlobal) ((visitIds cs).map dotted))) :
+    addAttributes name cs A = .ok (flatExpected cs A) :=
+  flat_attach name cs A ⟨ids_nodup cs hnames hnd, h1, h2⟩ hself
+
 /-- **unguarded statement refuted (1)**: over the DAS-safe domain alone the round trip is false — a
     one-element list comes back as a scalar (finding C08.short_list). -/
 theorem C08_roundtrip_refuted : ¬ (∀ ds : Dataset, DsOk ds → roundTrip ds = some (.ok (expected ds))) := by
@@ -408,6 +436,13 @@ example : (∀ e, dget [("g".toList, AVal.dict [("x".toList, .sc (.str []))])] (
         = .ok (.dict [("x".toList, .sc (.str []))])
     ∧ dget [("x".toList, AVal.sc (.str []))] "x".toList = some (.sc (.str [])) :=
   ⟨(by intro e h; cases h), rfl, rfl, rfl⟩
+-- ids: the tree `s {a}, b` has dot-free, pairwise distinct sibling names
+example : VarsNames exTmpl ∧ (exTmpl.map Var.name).Nodup := by
+  refine ⟨⟨⟨by decide, by decide, ⟨by decide, by decide, trivial⟩, trivial⟩, ⟨by decide, by decide, trivial⟩, trivial⟩, by decide⟩
+-- mixed flat + nested for `s.a`: both containers exist
+example : attachStep [("s".toList, .dict [("a".toList, .dict [("x".toList, .sc (.num "1".toList false))])]),
+                      ("s.a".toList, .dict [("y".toList, .sc (.num "2".toList false))])] ["s".toList, "a".toList] []
+    = .ok ([("s".toList, .dict [])], [("y".toList, .sc (.num "2".toList false)), ("x".toList, .sc (.num "1".toList false))]) := rfl
 -- histories: a history that opens the same dataset three times satisfies the hypothesis of `C08_history_roundtrip`
 example : ∀ ds ∈ [exSmall, exSmall, exSmall], DsOk ds ∧ Guard ds := by
   intro ds h; simp at h; subst h; exact ⟨exSmall_ok, exSmall_guard⟩
